@@ -76,6 +76,8 @@ class Reply(dict):
 
 
 def _parse_val(v):
+    if v in ("inf", "+inf"):
+        return float("inf")
     if v.startswith("i"):
         return int(v[1:])
     if v.startswith("s"):
